@@ -67,7 +67,64 @@ def setup_worker(tier, seed):
         _state["patched"] = False
 
 
+# Deterministic regression inputs: the witness of every repaired mechanism (known_findings.json,
+# status fixed) with small variations of nesting position, neighbours and spelling.
+REGRESS = {
+    "complex-negative-zero-imag": [
+        "-3-0j", "1-0j", "-0.0-0j", "Inf-0j", "NaN-0j", "[-3-0j]", "(f 1-0j 2.5-0J)", "{1 -3-0j}",
+        "'-3-0j", "#(-3-0j -3+0j)", 'f"{-3-0j}"', 'f"{x :{2-0j}}"', "~-3-0j", "#{1e3-0j}"],
+    "unquote-of-at-dotted-form": [
+        "(unquote (. @a b))", "(unquote @a.b)", "~ @a.b", "~ @.b", "~ @a.b.c", "[~ @a.b]", "(f ~ @x.y 1)",
+        "`(a ~ @b.c)", "~ ~ @a.b", "'~ @a.b", "#* ~ @a.b", 'f"{~ @a.b}"', 'f"{x :{~ @a.b}}"', "~ @@.y",
+        "{~ @a.b ~ @c}", "~ @x", "~ @", "(unquote (. @ b c))", "~@ ~ @a.b", "#(~ @a.b)"],
+    "dotted-sugar-not-a-dotted-identifier": [
+        "(. . .)", "(. None . a)", "(. None _1)", "(. a ..)", "(. a ... b)", "(.. None .)", "(. None ...)",
+        "(. None _1e5)", "(. None ,1)", "(. None _1j)", "(. None _1_0)", "(. . . .)", "(... None ..)",
+        "[(. . .)]", "(f (. None _1) 2)", "'(. . .)", 'f"{(. . .)}"', "~(. None _1)", "(. a . b)",
+        "(. None _0x1)", "#((. None _1) (. . .))", 'f"{x :{(. None _1)}}"'],
+    # (¶ stands for a newline, ¤ for a carriage return in the source text)
+    "bracket-string-leading-newline": [
+        "#[[¶¶abc]]", "#[x[¶¶]x]", "#[[¶¶¶]]", "#[f[¶¶abc{x}]f]", "#[f-x[¶¶{x}]f-x]",
+        "[#[[¶¶abc]] 1]", 'f"{#[[¶¶a]]}"', "#[[¶¤¶abc]]", "#[==[¶¶ ]==]", "(f #[[¶¶]])",
+        "#[f[¶¶]f]", "#[f[¶¶{{]f]", "'#[[¶¶q]]", "{#[[¶¶k]] #[f[¶¶{v}]f]}", "#[[¤¤ab]]"],
+    "fcomponent-multi-spec": [
+        'f"{x :{w}.{p}}"', 'f"{x :a{w}}"', 'f"{x :{w}b}"', 'f"{x !r :{w}.{p}f}"', "#[f[{x :{w}.{p}}]f]",
+        't"{x :{w}.{p}}"', 'f"{x :{w :{a}{b}}}"', '[f"{x :>{w}}"]', 'f"a{x :{w}.{p}}b{y :{w}{p}}"',
+        'f"{x :{w !r}{p !s :>3}z}"', 'rf"{x :{w}-{p}}"', '(f f"{x :{w}{p}{q}}")', 'f"{x = :{w}.{p}}"',
+        'f"{f"{y :{a}{b}}" :{w}.{p}}"'],
+    "fspec-string-verbatim": [
+        'f"{x :a{{b}"', 'f"{x :{{}"', r'f"{x :\\>5}"', r'f"{x :\">5}"', r'f"{x :\r}"', "#[f[{x :a{{b}]f]",
+        r"#[f[{x :\>5}]f]", 'f"{x :{{{w}}"', r'f"{x :\x5c}"', r'f"{x !r :\t{{}"', r't"{x :{{<\\}"',
+        r'[f"{x :\"}"]', 'f"{x :{w :{{}}"', 'f"{x :{{{{}"', r'f"{x :\\{w}}"'],
+    "fcomponent-value-starts-with-brace": [
+        'f"{ {1 2} }"', 'f"{ {} }"', 'f"{ {1 2} !r :>9}"', "#[f[{ {1 2}}]f]", 'f"{x :{ {1 2} }}"',
+        'f"a{ {"k" {1 2}} }b"', 't"{ {1 2} }"', '[f"{ {:a 1} }"]', 'f"{ {1 2} = }"', 'f"{{{ {1 2} }}}"',
+        'rf"{ {1 2}}"', 'f"{ {1} }{ {2 3} }"'],
+    "fstring-escaped-backslash-before-N-brace": [
+        r'f"\x5cN{{x}}"', r'f"{"\N{BULLET}" = }"', r'f"\x5c\x5cN{{"', r'f"a\x5cN{{BULLET}}{x}"',
+        r'f"{x :\x5cN{{}"', r'[f"\x5cN{{a}}" 1]', r't"\x5cN{{x}}"', r'f"\x5cN{x}"'],
+}
+REGRESS_TOTAL = {k: len(v) for k, v in REGRESS.items()}
+
+
+def regress_cases(shard, nshards):
+    n = 0
+    for key, texts in REGRESS.items():
+        for text in texts:
+            n += 1
+            if n % nshards == shard:
+                yield {"kind": "text", "regress": key,
+                       "text": text.replace("¶", "\n").replace("¤", "\r")}
+
+
+def gate(tot, classes, extra, tier):
+    missing = [k for k, n in REGRESS_TOTAL.items() if classes.get("regress:" + k, 0) < n]
+    if missing:
+        return "regression-inputs-did-not-all-run:" + ",".join(missing)
+
+
 def cases(seed, tier, shard, nshards):
+    yield from regress_cases(shard, nshards)
     corpus = G.corpus_iter(shard, nshards)
     depth = 3 if tier == "quick" else 4
     i = 0
@@ -357,7 +414,7 @@ def run_case(case):
             if d:
                 return {"ok": None, "classes": ["skip:not-reader-producible"]}
     feats = G.features(ir)
-    classes = ["kind:" + kind] + sorted(f for f in feats if f.startswith(("T:", "sugar:")) or f in CLASS_FEATS)
+    classes = ["kind:" + kind] + (["regress:" + case["regress"]] if "regress" in case else []) + sorted(f for f in feats if f.startswith(("T:", "sugar:")) or f in CLASS_FEATS)
     why, text = roundtrip(m)
     res = {"ok": why is None,
            "nontrivial": bool(feats & {"fstring", "bracket-string", "sugar"}),
